@@ -877,3 +877,56 @@ def g11(rep, tms):
                                                                   ref[name][d] if d < len(ref[name]) else None),
                             tm.file if tm else None, (tm.pb or {}).get("line") if tm else None))
     return r
+
+
+
+def loop_guards(tms):
+    """{parse function: [sorted marker tags of each detect_field-guarded loop, in source order]}"""
+    out = {}
+    for tm in tms:
+        if tm.g is None:
+            continue
+        rows = []
+        for lid, lp in tm.g.loops.items():
+            if lp["kind"] != "while" or not lp["detect"]:
+                continue
+            rows.append((lp.get("ln") or 0, sorted(set(lp["detect"]))))
+        if rows:
+            out[tm.name] = [d for _, d in sorted(rows)]
+    return out
+
+
+def g12(rep, tms):
+    import json as _json
+    import os as _os
+    r = rep.rule("G12", "repetition guards = reviewed reference: the set of marker tags on which each repetition loop "
+                        "of a message parser is entered (detect_field(M1) || .. || detect_field(Mk)) equals the "
+                        "reference set of that loop; a marker dropped from the guard means a repetition that starts "
+                        "with that field is never entered", floor=13)
+    path = _os.path.join(_os.path.dirname(_os.path.dirname(_os.path.abspath(__file__))), "spec", "layouts.json")
+    ref = (_json.load(open(path)).get("loops") if _os.path.exists(path) else None)
+    if ref is None:
+        rep.fail_closed("G12: spec/layouts.json has no loop guards")
+        return r
+    cur = loop_guards(tms)
+    by = {tm.name: tm for tm in tms}
+    for name in sorted(set(ref) | set(cur)):
+        a, b = cur.get(name, []), ref.get(name, [])
+        r["instances"] += max(len(a), len(b))
+        if a == b:
+            continue
+        tm = by.get(name)
+        if len(a) != len(b):
+            rep.notes.append("G12: %s has %d marker-guarded loops, the reference %d: loops restructured, undecided"
+                             % (name, len(a), len(b)))
+            continue
+        for i, (x, y) in enumerate(zip(a, b)):
+            if x != y:
+                lost = sorted(set(y) - set(x))
+                rep.add(Finding("G12", tm.pfn if tm else name, "loop%d:%s" % (i, "|".join(x)),
+                                "%s enters its repetition loop %d on %s; the reference enters it on %s%s"
+                                % (name, i + 1, "|".join(x) or "-", "|".join(y) or "-",
+                                   (": a repetition that begins with field %s is never entered and what follows is "
+                                    "left unread" % "/".join(lost)) if lost else ""),
+                                tm.file if tm else None, (tm.pb or {}).get("line") if tm else None))
+    return r
